@@ -60,12 +60,12 @@ func runC03(c *Ctx) {
 				}
 				creates, trunc := false, false
 				for _, f := range flags {
-					if f&0x40 != 0 {
+					if f&oCREATE != 0 {
 						creates = true
-						if f&0x200 != 0 {
+						if f&oTRUNC != 0 {
 							trunc = true
 						}
-						if f&0x80 != 0 {
+						if f&oEXCL != 0 {
 							hasExcl = true
 							exclCall, exclFn = call, fn
 						}
